@@ -53,6 +53,7 @@ func runC10(c *Ctx) {
 		bind[fv.Name()] = mc.Bindings[i]
 	}
 	site := w.FnPos(W)
+	probeAgreement(c, W, "skip/probe")
 
 	// ---- (a) precedence ---------------------------------------------------
 	var repoCalls []*ssa.Call
